@@ -223,6 +223,10 @@ type c15Impl struct {
 	Model    *bayes.Model
 	// shape of the target
 	NCredit, NDebit, NBoth, Replaced, Kept, NTrx int
+	// for every placeholder field that Infer left alone: the account of the other side at the time of the decision (the credit
+	// side is decided against the debit account as it was, the debit side against the credit account as written)
+	KeptOther []string
+	MaxTokens int // largest token set of a target transaction with a placeholder (words of the description, distinct, lower case)
 }
 
 // c15Train is inferRunner.train on parsed files given in some arrival order.
@@ -283,13 +287,23 @@ func c15InferFormat(m *bayes.Model, target string, im *c15Impl) (out string, out
 					case d:
 						im.NDebit++
 					}
-					for _, p := range [][2]string{{before[j].cr, b.Credit.Extract()}, {before[j].db, b.Debit.Extract()}} {
+					for _, p := range [][3]string{{before[j].cr, b.Credit.Extract(), before[j].db}, {before[j].db, b.Debit.Extract(), b.Credit.Extract()}} {
 						if p[0] == ph {
 							if p[1] != ph {
 								im.Replaced++
 							} else {
 								im.Kept++
+								im.KeptOther = append(im.KeptOther, p[2])
 							}
+						}
+					}
+					if c || d {
+						set := map[string]bool{}
+						for _, w := range strings.Fields(t.Description.Content.Extract()) {
+							set[strings.ToLower(w)] = true
+						}
+						if len(set) > im.MaxTokens {
+							im.MaxTokens = len(set)
 						}
 					}
 				}
@@ -487,6 +501,22 @@ func (x *c15run) one(stream string, index int, k c15Case) {
 		return
 	}
 	x.monitors(stream, index, k, im.Eligible, fmtText, im.Out)
+	// the replacement clause, evaluated on the trees of the real parser alone (no model, no score): a placeholder field is
+	// left alone only when the training journals offer no account but the one on the other side (C15_candidate_replaced)
+	left := ""
+	for _, other := range im.KeptOther {
+		for _, e := range im.Eligible {
+			if e != other {
+				left = fmt.Sprintf("a placeholder next to %q was kept although the training journals offer %q (%d learnable accounts)", other, e, len(im.Eligible))
+				break
+			}
+		}
+		if left != "" {
+			break
+		}
+	}
+	c.Monitor(stream, index, "C15_candidate_replaced(a placeholder stays only when the training offers no account other than the other side)", in, left == "",
+		left+"; largest token set "+fmt.Sprint(im.MaxTokens)+"; output "+clipTo(fmt.Sprintf("%q", im.Out), 500))
 	// determinism: another arrival order of the training transactions, and a second run
 	m2 := c15Train(k.Placeholder, im.Files, true)
 	out2, oc2 := c15InferFormat(m2, k.Target, nil)
@@ -650,6 +680,9 @@ type c15Gen struct {
 	amts  []string
 	odd   bool // odd layouts (the formatter has work to do)
 	tags  map[string]bool
+	// scale stream: number of words of the next description (nil: 0..4) and the separators between them (nil: c15Seps)
+	nwords func() int
+	seps   []string
 }
 
 func c15NewGen(r *RNG) *c15Gen {
@@ -692,19 +725,28 @@ func (g *c15Gen) date() string {
 }
 
 func (g *c15Gen) desc() string {
-	n := g.r.Range(0, 4)
+	n := 0
+	if g.nwords != nil {
+		n = g.nwords()
+	} else {
+		n = g.r.Range(0, 4)
+	}
+	seps := c15Seps
+	if g.seps != nil {
+		seps = g.seps
+	}
 	var b strings.Builder
 	if g.r.Chance(1, 10) {
-		b.WriteString(Pick(g.r, c15Seps))
+		b.WriteString(Pick(g.r, seps))
 	}
 	for i := 0; i < n; i++ {
 		if i > 0 {
-			b.WriteString(Pick(g.r, c15Seps))
+			b.WriteString(Pick(g.r, seps))
 		}
 		b.WriteString(Pick(g.r, g.words))
 	}
 	if g.r.Chance(1, 10) {
-		b.WriteString(Pick(g.r, c15Seps))
+		b.WriteString(Pick(g.r, seps))
 	}
 	return b.String()
 }
@@ -922,6 +964,192 @@ func c15Generate(r *RNG) c15Case {
 	return k
 }
 
+// ---------------------------------------------------------------- scale: sizes far from the everyday ones
+//
+// The score of a candidate is a function of (total, count, one count per token of the booking): what it does for three
+// words and six training bookings says little about three hundred words or thousands of bookings (sums or products of
+// hundreds of small ratios, counts in the thousands, dozens of candidates, token tables with thousands of keys).
+// The stream varies, each on a roughly logarithmic scale and independently: the number of words of the target's
+// descriptions (1 .. 2500), how many of them no training transaction has (none / some / all), whether they are distinct
+// or repeat (the token set is a set: 2000 words can be 3 tokens), the size of the training journal (0 .. 200 transactions,
+// thorough: 2000), the length of the training descriptions (a few words .. hundreds), the vocabulary (3 .. 3000 words,
+// mixed case so that several spellings fold into one token), the number of accounts (2 .. 40, unevenly frequent) and the
+// side of the placeholder.
+
+var c15ScaleSeps = []string{" ", " ", " ", " ", " ", "  ", "\t", "\n", "\u00a0", "\u3000"}
+
+func c15ScaleWord(r *RNG, prefix string, i int) string {
+	w := fmt.Sprintf("%s%d", prefix, i)
+	switch r.Intn(12) {
+	case 0:
+		return strings.ToUpper(w)
+	case 1:
+		return "Ä" + w
+	case 2:
+		return "ä" + w
+	}
+	return w
+}
+
+// c15LogPick draws from a ladder of sizes, and then somewhere between the step below and the step drawn.
+func c15LogPick(r *RNG, ladder []int) int {
+	j := r.Intn(len(ladder))
+	if j == 0 || r.Bool() {
+		return ladder[j]
+	}
+	return r.Range(ladder[j-1], ladder[j])
+}
+
+type c15ScaleShape struct {
+	NAcc, Vocab, NTrain, TrainWords, TargetWords, Unseen int
+	Distinct                                             bool
+}
+
+func (sh c15ScaleShape) kind() string {
+	b := func(n int) string {
+		switch {
+		case n <= 8:
+			return c15Bucket(n)
+		case n <= 30:
+			return "9-30"
+		case n <= 100:
+			return "31-100"
+		case n <= 320:
+			return "101-320"
+		case n <= 1000:
+			return "321-1000"
+		}
+		return "1001+"
+	}
+	return fmt.Sprintf("scale:acc%s,train%s,tw%s,words%s,unseen%d,distinct%v", b(sh.NAcc), b(sh.NTrain), b(sh.TrainWords), b(sh.TargetWords), sh.Unseen, sh.Distinct)
+}
+
+func c15GenerateScale(r *RNG, thorough bool) (c15Case, c15ScaleShape) {
+	g := c15NewGen(r)
+	if !c15IsAccount(g.ph) || strings.HasPrefix(g.ph, "$") || r.Chance(1, 2) {
+		g.ph = "Expenses:TBD"
+	}
+	g.odd = r.Chance(1, 6)
+	g.seps = c15ScaleSeps
+	var sh c15ScaleShape
+	sh.NAcc = c15LogPick(r, []int{2, 3, 5, 12, 40})
+	sh.Vocab = c15LogPick(r, []int{3, 30, 300, 3000})
+	trainLadder := []int{0, 1, 2, 6, 20, 60, 200}
+	if thorough {
+		trainLadder = append(trainLadder, 600, 2000)
+	}
+	sh.NTrain = c15LogPick(r, trainLadder)
+	sh.TrainWords = c15LogPick(r, []int{2, 5, 5, 30, 200})
+	sh.TargetWords = c15LogPick(r, []int{1, 8, 40, 110, 300, 700, 1200, 2500})
+	sh.Unseen = Pick(r, []int{0, 10, 50, 100, 100})
+	sh.Distinct = r.Chance(3, 4)
+	// keep the training journal within what the model's association lists handle in a fraction of a second
+	budget := 2500
+	if thorough {
+		budget = 30000
+	}
+	for sh.NTrain*(sh.TrainWords/2+6) > budget && sh.TrainWords > 2 {
+		sh.TrainWords /= 2
+	}
+	// accounts: some everyday ones, the rest generated; the earlier ones more frequent
+	var names []string
+	for i := 0; i < sh.NAcc; i++ {
+		if i < 4 && r.Bool() {
+			names = append(names, Pick(r, c15Accounts))
+		} else {
+			names = append(names, fmt.Sprintf("%s:K%d", Pick(r, []string{"Expenses", "Assets", "Income", "Équité"}), i))
+		}
+	}
+	g.accts = nil
+	for i, a := range names {
+		for w := 1 + (len(names)-i)*(len(names)-i)/len(names); w > 0; w-- {
+			g.accts = append(g.accts, a)
+		}
+	}
+	seen := make([]string, sh.Vocab)
+	for i := range seen {
+		seen[i] = c15ScaleWord(r, "w", i)
+	}
+	// training
+	g.words = seen
+	g.nwords = func() int {
+		if r.Chance(1, 20) {
+			return r.Range(0, 4*sh.TrainWords)
+		}
+		return r.Range(0, sh.TrainWords)
+	}
+	var tb strings.Builder
+	side := Pick(r, []string{"none", "none", "none", "mixed"})
+	for i := 0; i < sh.NTrain; i++ {
+		tb.WriteString(g.trx(side, 30))
+		tb.WriteString("\n")
+		if r.Chance(1, 15) {
+			nw := g.nwords
+			g.nwords, g.seps = func() int { return r.Range(0, 3) }, []string{" "} // (a comment line ends at the first line break)
+			tb.WriteString(g.other())
+			g.nwords, g.seps = nw, c15ScaleSeps
+		}
+	}
+	// target: words of the training vocabulary and words no training transaction has
+	nu := sh.TargetWords
+	if !sh.Distinct {
+		nu = r.Range(1, 4)
+	}
+	pool := make([]string, 0, 2*nu)
+	for i := 0; i < 2*nu; i++ {
+		if r.Intn(100) < sh.Unseen {
+			pool = append(pool, c15ScaleWord(r, "u", i))
+		} else if sh.Distinct {
+			pool = append(pool, seen[(i*7+r.Intn(7))%len(seen)])
+		} else {
+			pool = append(pool, Pick(r, seen))
+		}
+	}
+	var db strings.Builder
+	ntgt := 1
+	if r.Chance(1, 3) {
+		ntgt = r.Range(2, 3)
+	}
+	for i := 0; i < ntgt; i++ {
+		n := sh.TargetWords
+		if i > 0 {
+			n = r.Range(0, sh.TargetWords)
+		}
+		g.nwords = func() int { return n }
+		if sh.Distinct { // a (mostly) duplicate-free description: a walk through the pool
+			perm := append([]string{}, pool...)
+			for j := len(perm) - 1; j > 0; j-- {
+				k := r.Intn(j + 1)
+				perm[j], perm[k] = perm[k], perm[j]
+			}
+			g.nwords = func() int { return 0 }
+			var d strings.Builder
+			for j := 0; j < n; j++ {
+				if j > 0 {
+					d.WriteString(Pick(r, g.seps))
+				}
+				d.WriteString(perm[j%len(perm)])
+			}
+			db.WriteString(c15ScaleTrx(g, d.String(), Pick(r, []string{"credit", "debit", "both", "mixed", "debit"})))
+		} else {
+			g.words = pool
+			db.WriteString(g.trx(Pick(r, []string{"credit", "debit", "both", "mixed", "debit"}), 30))
+		}
+		db.WriteString("\n")
+	}
+	k := c15Case{Placeholder: g.ph, Training: []c15File{{"train.knut", tb.String()}}, Target: db.String()}
+	k.Kinds = []string{sh.kind()}
+	return k, sh
+}
+
+// c15ScaleTrx is c15Gen.trx with a given description.
+func c15ScaleTrx(g *c15Gen, desc string, side string) string {
+	t := g.trx(side, 30) // description empty (nwords = 0, perhaps one separator)
+	i := strings.Index(t, "\"")
+	j := i + 1 + strings.Index(t[i+1:], "\"")
+	return t[:i+1] + desc + t[j:]
+}
+
 func c15Corpus() []c15Case {
 	trainGolden := "2022-01-01 \"Migros food\"\nAssets:Bank Expenses:Food 10 CHF\n\n2022-01-02 \"SBB ticket\"\nAssets:Bank Expenses:Travel 20 CHF\n\n2022-01-03 \"Salary\"\nIncome:Salary Assets:Bank 1000 CHF\n"
 	tf := func(s string) []c15File { return []c15File{{"train.knut", s}} }
@@ -1083,6 +1311,25 @@ func runC15(c *Ctx) {
 	}
 	x.flush()
 
+	// ---- scale: long descriptions, large vocabularies and training journals, many accounts (library code in-process)
+	ns := c.N(80, 6000)
+	tScale := time.Now()
+	for i := 0; i < ns; i++ {
+		if !c.Want("scale", i) {
+			continue
+		}
+		k, sh := c15GenerateScale(c.Rng("scale", i), c.Thorough())
+		c.Tag("scale/target-words " + strings.SplitN(strings.SplitN(sh.kind(), "words", 2)[1], ",", 2)[0])
+		x.one("scale", i, k)
+		if i%8 == 7 { // the request lines are long: do not let them pile up
+			x.flush()
+		}
+	}
+	x.flush()
+	if !c.Replay {
+		c.Extra["scale_stream_wall_s"] = fmt.Sprintf("%.1f", time.Since(tScale).Seconds())
+	}
+
 	// ---- malformed: mutated targets and training files
 	nm := c.N(800, 20000)
 	for i := 0; i < nm; i++ {
@@ -1148,6 +1395,21 @@ func runC15(c *Ctx) {
 		}
 		x.cli(i, k)
 	}
+	// the command itself on cases of the scale stream (indices from 1000000 on, so that they mean the same in both tiers)
+	for j := 0; j < c.N(8, 150); j++ {
+		i := 1000000 + j
+		if !c.Want("cli", i) {
+			continue
+		}
+		r := c.Rng("cli", i)
+		k, _ := c15GenerateScale(r, false)
+		k.Kinds = append(k.Kinds, "cli-scale")
+		if r.Chance(1, 8) {
+			k.SameFile = true
+			k.Kinds = append(k.Kinds, "same-file")
+		}
+		x.cli(i, k)
+	}
 	x.flush()
 
 	// ---- directed search around disagreements
@@ -1155,7 +1417,19 @@ func runC15(c *Ctx) {
 		cnt := 0
 		for si, s := range x.suspects {
 			r := c.Rng("directed", si)
-			for _, v := range c15Variants(r, s, 400) {
+			// fewer variants of a large case (a variant of a 30 KB case costs the model a second)
+			size := len(s.Target)
+			for _, f := range s.Training {
+				size += len(f.Text)
+			}
+			nv := 400
+			if size > 2000 {
+				nv = 400 * 2000 / size
+				if nv < 25 {
+					nv = 25
+				}
+			}
+			for _, v := range c15Variants(r, s, nv) {
 				cnt++
 				x.one("directed", -cnt, v)
 			}
